@@ -50,6 +50,13 @@ def family(tier):
                             dict(until=3, sims=[T("A"), T("M1", s1, **{"async": a1}),
                                                 T("M2", s2, **{"async": a2})],
                                  conns=[aconn("A", "M1"), aconn("A", "M2")])))
+    # an ordinary persistent connection into the very attribute the agent writes (sparse set_data):
+    # the value set once must not turn into a persistent input
+    for sub in ((0,), (1,), (0, 2)):
+        acts = {str(k): [("set", "A.e", "mi")] for k in sub}
+        out.append((f"a1_persistent_same_attr_{''.join(map(str, sub))}",
+                    dict(until=4, sims=[T("P"), T("A"), T("M", 1, **{"async": acts})],
+                         conns=[dict(src="P", dst="A", sattr="po", dattr="mi"), aconn("A", "M")])))
     # negative cases
     out.append(("neg_no_flag", dict(
         until=2, sims=[T("A"), T("M", 1, **{"async": {"0": [("set", "A.e", "mi")],
@@ -74,6 +81,9 @@ def jobs(tier, seed):
             cfgs = [dict(lazy=l, cache=c) for l in (True, False) for c in (True, False)]
         for cfg in cfgs:
             js.append(dict(name="c16_" + name, scen=scen, cfg=cfg, budget=1, max_exec=3000))
+        if "persistent_same_attr" in name:
+            for cfg in (dict(lazy=True, cache=False), dict(lazy=False, cache=True)):
+                js.append(dict(name="c16_" + name, scen=scen, cfg=cfg, budget=1, max_exec=3000))
         if name.startswith(("neg", "a2")) or tier == "thorough":
             js.append(dict(name="c16_" + name, scen=scen,
                            cfg=dict(lazy=True, cache=True, transport="mem"), budget=0, max_exec=2000))
